@@ -61,7 +61,7 @@ class Sandbox:
         for d in ("r", "o"):
             shutil.rmtree(os.path.join(self.top, d), ignore_errors=True)
         self.R = os.path.join(self.top, "r")
-        self.cache = os.path.join(self.R, "cache")
+        self.cache = os.path.join(self.R, "occa")       # (a path component named "occa": sys::rmrf refuses other places)
         self.proj = os.path.join(self.R, "proj")
         self.outside = os.path.join(self.top, "o")
         for d in (self.cache, self.proj, self.outside):
